@@ -1755,6 +1755,18 @@ def check_C20(tier, seed, replay):
     res.coverage["shared_state_audit"] = audit_shared_state() or "no static / thread_local / interior-mutable global in runtime/src (hook file excluded)"
     if thread_cases:
         monitor(res, "C20", "cache", thread_cases, tier, "FreshCache", "a cache hit in a thread's parse that no entry of the same call explains")
+    if tier == "thorough" and not replay:
+        # optional strengthening: SessionPure and FreshCache of the per-call design for any number of threads,
+        # inputs, keys and calls (TLAPS, inductive invariant in spec/proofs/SessionProofs.tla)
+        import re
+        try:
+            p_ = subprocess.run(["tlapm", "--threads", "8", "--cleanfp", "-I", "..", "SessionProofs.tla"],
+                                cwd=os.path.join(vlib.SPEC, "proofs"), stdout=subprocess.PIPE, stderr=subprocess.STDOUT, text=True, timeout=900)
+            m = re.search(r"All (\d+) obligations? proved", p_.stdout)
+            res.coverage["tlaps_session"] = ({"obligations": int(m.group(1)), "proved": int(m.group(1))} if m
+                                             else {"failed": p_.stdout[-400:]})
+        except Exception as ex:  # noqa
+            res.coverage["tlaps_session"] = {"not_run": str(ex)[:200]}
     res.assumptions = ["TLC enumerates the interleavings of the model; real thread schedules are sampled, not enumerated",
                        "outcome = result, tracer callbacks and recorded cursor advances, compared as a whole"]
     res.level = "model_checking"
